@@ -605,11 +605,28 @@ def _copy_real_rlock(lock, memo):
     return threading.RLock()
 
 
+def _copy_text_file(f, memo):
+    """An open text file inside a process object: the child of a fork(2) has a descriptor of its own for the SAME
+    open file description (one shared position), and user-space buffers of its own. os.dup() gives exactly that
+    sharing inside one process; the copy's buffers start empty (the files of the code under test are flushed after
+    every write, and an absolute seek precedes every read)."""
+    import io
+    import os
+    if f.closed:
+        new = io.StringIO()
+        new.close()
+        return new
+    mode = "r" if f.readable() and not f.writable() else ("r+" if f.readable() else "w")
+    return open(os.dup(f.fileno()), mode, encoding=f.encoding, errors=f.errors)
+
+
 def _install_lock_copiers():
     import _thread
+    import io
     import threading
     copy._deepcopy_dispatch[_thread.LockType] = _copy_real_lock
     copy._deepcopy_dispatch[type(threading.RLock())] = _copy_real_rlock
+    copy._deepcopy_dispatch[io.TextIOWrapper] = _copy_text_file
 
 
 _install_lock_copiers()
